@@ -73,6 +73,7 @@ MC_DEPS = {
     "Iter": ["Hashbrown.tla", "Griddle.tla", "GriddleCount.tla", "MCGriddle.tla", "MCIter.tla"],
     "Par": ["MCPar.tla"],
     "Cursor": ["MCCursor.tla"],
+    "CursorZst": ["MCCursor.tla"],
     "Overflow": ["Hashbrown.tla", "GriddleCount.tla", "MCCount.tla"],
     "OverflowDbg": ["Hashbrown.tla", "GriddleCount.tla", "MCCount.tla"],
 }
@@ -98,6 +99,11 @@ MC = {
     "Cursor": {
         "quick": ("MCCursor", "MCCursor16", 4, 3600),
         "thorough": ("MCCursor", "MCCursor20", 8, 7200),
+    },
+    # the same with zero-sized elements (fix D2: the iterator is re-created after each removal)
+    "CursorZst": {
+        "quick": ("MCCursor", "MCCursorZst", 4, 3600),
+        "thorough": ("MCCursor", "MCCursorZst", 4, 3600),
     },
     "Fault": {
         "quick": ("MCGriddle", "MCFault", 6, 3600),
@@ -130,7 +136,7 @@ PROPS = {
     "C02": dict(suites=["sim_plain", "sim_heap", "big_plain", "big_heap", "big_collide", "tomb_plain", "tomb_heap", "core_plain", "rel_plain", "core_heap", "defects"], mc=["CountR8", "CountR4"]),
     "C03": dict(suites=["sim_plain", "sim_heap", "big_plain", "big_heap", "big_collide", "tomb_plain", "tomb_heap", "core_plain", "core_heap", "rel_plain", "set_heap", "defects"], mc=["Small", "CountR8"]),
     "C04": dict(suites=["sim_plain", "sim_heap", "big_plain", "big_heap", "big_collide", "tomb_plain", "tomb_heap", "core_plain", "rel_plain", "limits_dbg", "limits_rel", "two_heap", "defects"], mc=["Small", "CountR8", "CountR4"], apalache=True),
-    "C05": dict(suites=["sim_plain", "sim_heap", "fault_heap", "fault_heap_rel", "tomb_plain", "tomb_heap", "core_heap", "rel_heap", "core_zst", "set_heap", "set_zst", "two_heap", "two_plain_rel", "defects"], mc=["Cursor", "Iter", "Small", "CountR8"], asan=["two_heap", "two_plain_rel", "core_heap", "fault_heap", "set_heap", "tomb_heap", "defects"], miri=True),
+    "C05": dict(suites=["sim_plain", "sim_heap", "fault_heap", "fault_heap_rel", "tomb_plain", "tomb_heap", "core_heap", "rel_heap", "core_zst", "set_heap", "set_zst", "two_heap", "two_plain_rel", "defects"], mc=["Cursor", "CursorZst", "Iter", "Small", "CountR8"], asan=["two_heap", "two_plain_rel", "core_heap", "fault_heap", "set_heap", "tomb_heap", "defects"], miri=True),
     "C06": dict(suites=["entry_heap", "entry_plain", "core_heap", "rel_heap", "two_heap", "set_heap", "set_two", "defects"], mc=["Small"]),
     # after an injected panic the semantic/safety monitors are part of "the map stays memory-safe and
     # self-consistent, later operations behave normally": their failures after a fault count for C07
